@@ -11,12 +11,16 @@
                       first data row;
      C07_page_first   every other page start: rtf_body.border_first (as body_border_first_style reads it);
      C07_matrix       the matrix mechanics: update_cell sets exactly one cell of the (broadcast) grid.
-   Interior cells: C09.  Known finding C07-border-top-override: body_border_first_style lets a non-empty
+     C07_interior_top / C07_interior_bottom / C07_sides_untouched   (Proofs/InteriorProofs.v) every other edge: the top edge
+                      of page row r > 0 and the bottom edge of page row r < h-1 hold the user's border_top / border_bottom of
+                      original row pc_slice_start + r; left / right styles, all border colours and widths are the re-based
+                      attributes untouched.
+   Known finding C07-border-top-override: body_border_first_style lets a non-empty
    per-column rtf_body.border_top replace border_first (witness below); the header row's own top border
    (renderer) is covered by the differential check only. *)
 From Coq Require Import Ascii String.
 From Coq Require Import List NArith ZArith QArith Bool Arith.
-From V Require Import Str Num Tok Items Doc Broadcast Encode Paginate Pipeline BroadcastProofs BorderProofs.
+From V Require Import Str Num Tok Items Doc Broadcast Encode Paginate Pipeline BroadcastProofs BorderProofs InteriorProofs.
 Import ListNotations.
 Local Open Scope string_scope.
 Local Open Scope list_scope.
@@ -65,6 +69,32 @@ Proof.
   - intros r' c' H1 H2 H3. eapply update_cell_other; eassumption.
 Qed.
 Print Assumptions C07_matrix.
+
+(* the last sentence of the property: every data-cell edge that is not one of the boundary edges above carries the user's
+   value of the cell's original row (pattrs: the section's attributes already cut to the w displayed columns;
+   pc_slice_start p: index of the page's first row in the section) *)
+Theorem C07_interior_top : forall s pattrs p w v r c,
+  a_bt pattrs = Some v -> v <> [] -> rect v w -> 0 < r -> r < pc_len p -> c < w ->
+  match a_bt (pb_attrs (process_page s pattrs p w)) with Some m => iloc m r c | None => None end
+  = iloc v (pc_slice_start p + r) c.
+Proof. exact interior_top_user. Qed.
+Print Assumptions C07_interior_top.
+
+Theorem C07_interior_bottom : forall s pattrs p w v r c,
+  a_bb pattrs = Some v -> v <> [] -> rect v w -> r < pc_len p - 1 -> c < w ->
+  match a_bb (pb_attrs (process_page s pattrs p w)) with Some m => iloc m r c | None => None end
+  = iloc v (pc_slice_start p + r) c.
+Proof. exact interior_bottom_user. Qed.
+Print Assumptions C07_interior_bottom.
+
+Theorem C07_sides_untouched : forall s pattrs p w,
+  0 < pc_len p ->
+  let a := pb_attrs (process_page s pattrs p w) in
+  let a0 := rebase_attrs (pc_slice_start p) (pc_len p) pattrs in
+  a_bl a = a_bl a0 /\ a_br a = a_br a0 /\ a_bcl a = a_bcl a0 /\ a_bcr a = a_bcr a0
+  /\ a_bct a = a_bct a0 /\ a_bcb a = a_bcb a0 /\ a_bw a = a_bw a0.
+Proof. exact sides_untouched. Qed.
+Print Assumptions C07_sides_untouched.
 
 (* known finding, witnessed on the model: a per-column border_top replaces border_first *)
 Example C07_refuted_border_top_override :
